@@ -163,6 +163,20 @@ Theorem C08_ibeta_gen_is_improper_integral : forall a b x : R, (0 < a)%R -> (0 <
 Proof. intros a b x Ha Hb Hx. split; [exact (Bgen_is_limit a b x Ha Hx) | exact (Btotal_is_limit a b Ha Hb)]. Qed.
 Print Assumptions C08_ibeta_gen_is_improper_integral.
 
+(* ... is continuous on the whole line (in particular at the ends 0 and 1, also for a, b < 1) and has the closed
+   forms I_x(a,1) = x^a, I_x(1,b) = 1 - (1-x)^b, I_(1/2)(a,a) = 1/2 for every real a, b > 0 ... *)
+Theorem C08_ibeta_gen_continuous : forall a b x : R, (0 < a)%R -> (0 < b)%R -> continuous (fun y => Ibeta_gen y a b) x.
+Proof. exact Ibeta_gen_continuous. Qed.
+Print Assumptions C08_ibeta_gen_continuous.
+
+Theorem C08_ibeta_gen_closed_forms : forall a x : R, (0 < a)%R -> (0 <= x <= 1)%R ->
+  Ibeta_gen x a 1 = RealSpec.BetaGen.rpow0 a x /\ Ibeta_gen x 1 a = (1 - RealSpec.BetaGen.rpow0 a (1 - x))%R /\
+  Ibeta_gen (1 / 2) a a = (1 / 2)%R.
+Proof.
+  intros a x Ha Hx. split; [exact (Ibeta_gen_b1 a x Ha Hx)|]. split; [exact (Ibeta_gen_a1 a x Ha Hx) | exact (Ibeta_gen_half_symm a Ha)].
+Qed.
+Print Assumptions C08_ibeta_gen_closed_forms.
+
 (* ... and which is the ratio of integrals Ibeta_R (the function of the closed forms and of the certificate
    goals) whenever that one is a proper integral *)
 Theorem C08_ibeta_gen_agrees : forall a b x : R, (1 <= a)%R -> (1 <= b)%R -> (0 <= x <= 1)%R ->
